@@ -23,7 +23,7 @@ Z3S = "z3 scheduling query (Int timestamps, program order, lock mutual exclusion
 STEP = " One inductive step from every constructible pre-state up to the node bound (all shapes, all label/clone patterns as unbounded symbolic ints, every operation and argument selector); CONFIRMED per shard = z3 showed no further path exists."
 
 claim("C01", "Bounded model checking of one mutation step on the real code: after every operation (whether it raised or not) an independent walk must find a well-formed tree (owner, single parent, once-by-identity in the child list, no cycles, count == reachable, unique node ids, removed nodes gone)." + STEP, NOTE, XH, "5/C01")
-claim("C02", "Same step driver as C01; after the step every lookup by data_id (present ids, ids present before, new ids), get_clones, is_clone, count_unique and the data_id rule are compared with a walk of the tree." + STEP, NOTE, XH, "5/C02")
+claim("C02", "Same step driver as C01; after the step every lookup by data_id (present ids, ids present before, new ids), get_clones, is_clone, count_unique and the data_id rule are compared with a walk of the tree. A second shard family covers the data flavours named in the property (str, int, tuple, frozen dataclass, DictWrapper, objects keyed by a callback) with symbolic pool selectors and one symbolic mutation, checking lookups by data object, data_id, node_id, `in` and tree[key]." + STEP, NOTE, XH, "5/C02")
 claim("C03", "Same step driver; the specification model says when an operation would create two siblings with one data_id: then the call must raise UniqueConstraintError, and after every step no parent may hold duplicate ids (routes: add variants, copy_to, add(tree), move_to, remove(keep_children), set_data); from_dict/load collisions are covered through the add route they use." + STEP, NOTE, XH, "5/C03")
 claim("C04", "Same step driver; the observable state after a documented-valid call must equal the independent executable specification (vlib/spec.py) applied to the same inputs, incl. identity of all untouched nodes, return value, source tree untouched; calls the documentation requires to be refused must raise." + STEP, NOTE, XH, "5/C04")
 claim("C05", "Symbolic save()->load() round trip through an S-json channel for five tree flavours (plain/str, explicit ids, callback mappers, typed, derived-class mappers), symbolic labels/ids/kinds selectors (all clone patterns), key_map/value_map in {default, off, custom}, meta flag; loaded class, shape, data, data_ids, kinds, clone groups, file_meta compared. Compression methods and path targets are run concretely in the native validation pass (zipfile/C codecs are not symbolically executable).", NOTE + " S-json: JSON round-trips the documents unchanged (validated natively with the real json module).", XH, "5/C05")
@@ -36,7 +36,7 @@ claim("C11", "Per pair of shapes all labels of both trees are unbounded symbolic
 claim("C12", "Writer: the document handed to json.dump equals an independent encoder of the documented layout for the C05 trees/options, plus structural rules (parent/clone references point to earlier entries). Reader: encoder documents (with references and with clones spelled out), the user guide's three literal examples and six malformed headers load to the described tree / are rejected with RuntimeError.", NOTE, XH, "5/C12")
 claim("C13", "Part A (refusals): same step driver as C01-C04; whenever the call raised, the observation must equal the pre-state and the C01-C03 predicates must hold. Part B (callback faults): for 14 operations taking a user callback (id calculation, predicate, match, sort key, visitor, serialize/deserialize mappers, dot mappers) the k-th invocation raises (k symbolic); C01-C03 predicates must hold afterwards and read-only operations must leave the observation unchanged.", NOTE, XH, "5/C13")
 claim("C14", "to_dict_list() equals an independent nested encoding and from_dict() of it - directly and after a JSON round trip - reproduces shape, order, data, custom ids and clone partition, for string trees, explicit ids and keyed objects with inverse mappers; both root representations.", NOTE, XH, "5/C14")
-claim("C15", "A parent (tree or nested node) with up to 4 (thorough 6) children whose kinds are symbolic selectors over three kind names (all same/different patterns; stored and queried strings are distinct objects): every kind-aware query for every child position, every present kind plus an absent one and any_kind on/off equals a list comprehension over the child list.", NOTE, XH, "5/C15")
+claim("C15", "A parent (tree or nested node) with up to 6 (thorough 8) children whose kinds are symbolic selectors over three kind names (all same/different patterns; stored and queried strings are distinct objects): every kind-aware query for every child position, every present kind plus an absent one and any_kind on/off equals a list comprehension over the child list.", NOTE, XH, "5/C15")
 claim("C16", "Per shape: symbolic style selector over the 28 table styles, 'list', a custom 4-tuple and 6-tuple, symbolic join selector; every start node, add_self, title mode and repr kind rendered and compared with an independent renderer written from the user guide.", NOTE + " Symbolic z3 strings for the segments were tried and dropped (12 s per path).", XH, "5/C16")
 claim("C17", "Per shape plain and typed, symbolic label/kind selectors (clones), start, unique_nodes, add_root: DOT and Mermaid output parsed by independent parsers, RDF triples read from the rdflib graph; node definitions and edge lists compared with the parent vector.", NOTE + " rdflib (pure Python) is imported from /venv's site-packages.", XH, "5/C17")
 claim("C18", "For each of 9 snapshot operations x 3 tree classes x 3 tree states the lock/read trace is extracted from the current source with a monitor; z3 decides for all interleavings of W writers x C critical sections with R readers (quick 1x2x1, thorough 2x2x2) whether a reader READ can fall inside a foreign critical section (must be unsat); sat schedules are replayed with real threads; re-entrancy is run under a watchdog.", "Trusted: threading.RLock semantics as encoded, completeness of the monitored read set (_root, _node_by_id, _nodes_by_data_id), one trace per operation (no data-dependent locking).", Z3S, "5/C18")
